@@ -292,15 +292,44 @@ pub fn on_fresh_thread<R: Send + 'static>(
     rseed: u64,
     f: impl FnOnce() -> R + Send + 'static,
 ) -> Result<R, String> {
+    match on_fresh_thread_watchdog(rseed, None, f) {
+        Ok(Some(r)) => Ok(r),
+        Ok(None) => unreachable!(),
+        Err(e) => Err(e),
+    }
+}
+
+/// Like [`on_fresh_thread`], with a liveness watchdog: `Ok(None)` means the
+/// run produced no result within `limit` (the stuck thread is abandoned; the
+/// process is expected to exit soon afterwards).  The limit is orders of
+/// magnitude above the cost of a run, so it does not make outcomes depend on
+/// timing on a tree where runs terminate.
+pub fn on_fresh_thread_watchdog<R: Send + 'static>(
+    rseed: u64,
+    limit: Option<std::time::Duration>,
+    f: impl FnOnce() -> R + Send + 'static,
+) -> Result<Option<R>, String> {
+    let (tx, rx) = std::sync::mpsc::channel();
     let h = std::thread::Builder::new()
         .stack_size(64 << 20)
         .spawn(move || {
             set_random_seed(rseed);
-            catch(f)
+            let r = catch(f);
+            let _ = tx.send(r);
         })
         .expect("spawn");
-    match h.join() {
-        Ok(r) => r,
-        Err(_) => Err("<thread died>".to_string()),
+    let r = match limit {
+        None => rx.recv().map_err(|_| ()),
+        Some(d) => match rx.recv_timeout(d) {
+            Ok(r) => Ok(r),
+            Err(std::sync::mpsc::RecvTimeoutError::Timeout) => return Ok(None),
+            Err(_) => Err(()),
+        },
+    };
+    let _ = h.join();
+    match r {
+        Ok(Ok(v)) => Ok(Some(v)),
+        Ok(Err(p)) => Err(p),
+        Err(()) => Err("<thread died>".to_string()),
     }
 }
